@@ -522,3 +522,48 @@ def rule_measure_rowset(ctx: Ctx) -> None:
         ctx.fail("measure.rowset", m, node,
                  "in the deterministic branch the outcome must be the sign of the product of the contributing stabilizers as accumulated by "
                  "row_sum into a scratch row; it is computed differently", func="z_measurement_gate", construct="z_measurement_gate: deterministic outcome not via row_sum")
+
+
+
+def rule_phase_halves(ctx: Ctx, rels: List[str]) -> None:
+    """num.halves: a tableau's sign vector is cut into its destabilizer / stabilizer halves at *its own* qubit count.
+    A slice `X.phase[:k]` / `X.phase[k:]` whose bound k is another tableau's n_qubits puts the signs on the wrong generators
+    as soon as the two tableaux differ in size."""
+    repo = ctx.repo
+    n = 0
+    for rel in rels:
+        m = repo.module(rel)
+        for fn in m.functions():
+            binds: Dict[str, str] = {}
+            for st in ast.walk(fn):
+                if isinstance(st, ast.Assign) and len(st.targets) == 1 and isinstance(st.targets[0], ast.Name) \
+                        and isinstance(st.value, ast.Attribute) and st.value.attr == "n_qubits":
+                    binds[st.targets[0].id] = norm(st.value.value)
+            for node in ast.walk(fn):
+                if not (isinstance(node, ast.Subscript) and isinstance(node.slice, ast.Slice) and isinstance(node.value, ast.Attribute)
+                        and node.value.attr in ("phase", "iphase", "_phase", "_iphase")):
+                    continue
+                recv = norm(node.value.value)
+                owners = set()
+                for b in (node.slice.lower, node.slice.upper):
+                    if b is None:
+                        continue
+                    for x in ast.walk(b):
+                        if isinstance(x, ast.Name) and x.id in binds:
+                            owners.add(binds[x.id])
+                        if isinstance(x, ast.Attribute) and x.attr == "n_qubits":
+                            owners.add(norm(x.value))
+                if not owners:
+                    continue
+                n += 1
+                ctx.touch(m, fn)
+                foreign = sorted(o for o in owners if o != recv)
+                if foreign:
+                    ctx.fail("num.halves", m, node,
+                             f"`{short(node)}` cuts the sign vector of `{recv}` at the qubit count of `{foreign[0]}`; the destabilizer / stabilizer "
+                             f"halves of a tableau's phase vector are delimited by that tableau's own n_qubits, so for tableaux of different "
+                             f"sizes the signs end up on the wrong generators", func=qualname(fn),
+                             construct=f"{qualname(fn)}: {recv}.{node.value.attr} sliced at {foreign[0]}.n_qubits")
+                else:
+                    ctx.ok("num.halves", m, node)
+    ctx.ok_abstract("num.halves", f"{n} phase-vector slices bounded by a qubit count analysed")
